@@ -45,7 +45,6 @@ type node struct {
 	inIfc  bool         // lies inside the payload of a registered interface (or of a WithType top level)
 	inTime bool         // one of the two integers of a time.Time
 	ifc    reflect.Type // prefix nodes: the interface type the decoder is filling
-	parent *node
 }
 
 type refenc struct {
@@ -53,11 +52,7 @@ type refenc struct {
 }
 
 func (r *refenc) mk(k nodeKind, what string, data []byte, kids ...*node) *node {
-	n := &node{kind: k, what: what, data: data, kids: kids, inIfc: r.inIfc, inTime: r.inTime}
-	for _, c := range kids {
-		c.parent = n
-	}
-	return n
+	return &node{kind: k, what: what, data: data, kids: kids, inIfc: r.inIfc, inTime: r.inTime}
 }
 
 func minimalBE(u uint64) []byte {
@@ -258,10 +253,6 @@ const (
 	mutDupKid                // list repeats one child
 	mutForeignPrefix         // type prefix replaced by that of another registered type
 )
-
-var mutNames = map[mutKind]string{mutLongForm: "longform", mutLeadZero: "leadzero", mutInflate: "inflate", mutInflateDeep: "inflate-deep",
-	mutCutInside: "cut-inside", mutBombWide: "bomb-wide", mutBombDeep: "bomb-deep", mutDropKid: "drop-kid", mutDupKid: "dup-kid",
-	mutForeignPrefix: "foreign-prefix"}
 
 type mutation struct {
 	kind    mutKind
